@@ -42,6 +42,13 @@ class Taint:
         for f, ps in self.t.get("seed_params", {}).items():
             for p in ps:
                 self.params.add((f, p))
+        # trait methods entered from foreign generic code (serde's Serialize, Display, ...): no call site shows what they are handed,
+        # and they are handed the writer's data (error values built from the target's state) — every parameter is tainted
+        for f in getattr(prog, "callback_targets", ()):
+            if f in self.reach:
+                for b in prog.by_short.get(f, ()):
+                    for p in range(1, b.argc + 1):
+                        self.params.add((f, p))
         self._fix()
 
     def origin(self, body):
